@@ -132,6 +132,8 @@ def plan_c04(tier, seed):
         add("g8", 1, 1, 1); add("g8", 2, 1, 2)
         add("g8b", 2, 1, 1)
         add("g8g", 2, 1, 1); add("g8g", 3, 1, 2)
+        # a partial run whose closure passes through a parameter connection two levels deep (ps -> pp -> p.a)
+        add("g8c", 2, 1, 2, runto=["p"], id="C04-g8c-i2-m2-runto-p"); add("g8b", 2, 1, 1, runto=["p"], id="C04-g8b-i2-m1-runto-p")
         add("g7c", 2, 1, 1); add("g7c", 2, 1, 2)   # a dead-end out-port beside the driver's feed, stream longer than the buffer
         add("g6b", 2, 1, 2, rev_src=True, id="C04-g6b-i2-m2-reverse-name-order")   # pairing follows arrival order, not name order
         add("g6", 1, 1, 1)
@@ -165,7 +167,7 @@ def plan_c04(tier, seed):
             "assumptions": BASE_ASSUMPTIONS + ["multi-in-port processes receive equally long streams; at most one process without out-ports"]}
 
 
-def maporder_stage(prop, oracles, tier, graphs=None, per_job=False):
+def maporder_stage(prop, oracles, tier, graphs=None, per_job=False, keep_mode=None):
     """second pass: for every range-over-map site with >= 2 keys seen in pass 1 of the small
     scenarios, force every other order of that one site and explore (delay bound 1)."""
     def stage(ctx, prev):
@@ -196,7 +198,12 @@ def maporder_stage(prop, oracles, tier, graphs=None, per_job=False):
                     nj["mode"] = "delay"
                     nj["delay"] = 1 if tier == "thorough" else 0
                     nj["_maporder"] = True
-                    nj.pop("_fallback_delay", None)
+                    if keep_mode and keep_mode(j):
+                        # small scenarios: every schedule under the forced order (closed search)
+                        nj["mode"] = "dpor"
+                        nj.pop("delay")
+                    else:
+                        nj.pop("_fallback_delay", None)
                     jobs.append(nj)
         return jobs
     return stage
@@ -374,8 +381,11 @@ def plan_c07(tier, seed):
         # workflow's driver), next to a leaf that ends in the sink
         for g, cores in (("g2", [mx + 1]), ("g11", [1, mx + 1]), ("g11", [mx + 1, 1]), ("g10b", [1, 1, mx + 1]), ("g3", [1, mx + 1])):
             jobs.append(wf("C07", g, 1, 1, mx, oracles=["nohang", "c07-oversize"], tier=tier, cores=cores, events_dep=False, id=f"C07-oversize-{g}-m{mx}-c{''.join(map(str, cores))}"))
+    # a workflow WITHOUT any slot (maxConcurrentTasks = 0): every process that asks for a core is oversize
+    for g, cores in (("g2", [1]), ("g3", [1, 1]), ("g3", [0, 1]), ("g13", [1, 2])):
+        jobs.append(wf("C07", g, 1, 1, 0, oracles=["nohang", "c07-oversize"], tier=tier, cores=cores, events_dep=False, id=f"C07-oversize-{g}-m0-c{''.join(map(str, cores))}"))
     return {"level": "model_checking", "stages": [lambda ctx, prev: jobs],
-            "rule": "all multisets of CoresPerTask over k ready tasks (+ tasks with CoresPerTask = 0 among them) x every interleaving of the token-by-token acquisition (DPOR closed): no deadlock state; barrier variants: k tasks with sum(cores) <= max rendezvous inside their bodies, so a library that serialises them deadlocks; oversize CoresPerTask: exit != 0 and no task of that process starts, in every schedule; environment deviation: the output of a queued task is created by an outside actor at every possible moment -> still no deadlock state",
+            "rule": "all multisets of CoresPerTask over k ready tasks (+ tasks with CoresPerTask = 0 among them) x every interleaving of the token-by-token acquisition (DPOR closed): no deadlock state; barrier variants: k tasks with sum(cores) <= max rendezvous inside their bodies, so a library that serialises them deadlocks; oversize CoresPerTask (also in a workflow with maxConcurrentTasks = 0): exit != 0 and no task of that process starts, in every schedule; environment deviation: the output of a queued task is created by an outside actor at every possible moment -> still no deadlock state",
             "assumptions": BASE_ASSUMPTIONS}
 
 
@@ -689,11 +699,13 @@ def plan_c09(tier, seed):
         for fk in ("exit-after", "exit-mid"):
             add("g8g", 2, 1, 2, "cmd", p_, mt, fk)
     # tasks that cannot be formed
-    for extra in ("emptyparam", "badpath", "missingtag", "missingtag-setout", "missingparam-setout"):
+    for extra in ("emptyparam", "badpath", "badpath-nonascii-letter", "badpath-nonascii-digit", "badpath-glob", "badpath-dollar", "missingtag", "missingtag-setout", "missingparam-setout"):
         for kind in ("cmd", "func"):
+            if extra.startswith("badpath-") and kind == "func" and tier == "quick":
+                continue
             jobs.append(wf("C09", "g8", 2, 1, 2, kind, oracles=["nohang", "c09-unformed"], tier=tier, events_dep=False, extra=extra, id=f"C09-g8-{extra}-{kind}"))
     return {"level": "fault_enumeration", "stages": [lambda ctx, prev: jobs],
-            "rule": "every choice of failing task x failure kind {exit before / mid / after writing, killed, declared output missing, run-time panic inside a Go function} + tasks that cannot be formed {empty parameter value, invalid output path, missing tag in the command, missing tag / unknown parameter in the output-path pattern}, each under every Mazurkiewicz trace of the concurrently running rest (DPOR closed, delay bound 2 otherwise); non-trivial = distinct (fault case, terminal outcome) pairs in which the fault changed the outcome",
+            "rule": "every choice of failing task x failure kind {exit before / mid / after writing, killed, declared output missing, run-time panic inside a Go function} + tasks that cannot be formed {empty parameter value, invalid output path (a space, a glob character, a dollar sign, a non-ASCII letter, a non-ASCII digit), missing tag in the command, missing tag / unknown parameter in the output-path pattern}, each under every Mazurkiewicz trace of the concurrently running rest (DPOR closed, delay bound 2 otherwise); non-trivial = distinct (fault case, terminal outcome) pairs in which the fault changed the outcome",
             "assumptions": BASE_ASSUMPTIONS + ["failures are injected at the exec seam (command result) or raised by the Go function through scipipe.Failf"]}
 
 
@@ -717,6 +729,8 @@ def crash_explore_jobs(prop, tier, oracles, snap_root=None):
     add("g3", 1, 1, "cmd")
     add("g8", 1, 1, "cmd")
     add("g14a", 1, 1, "func")
+    if prop == "C03":
+        add("g14b", 1, 1, "func", depth2=False)   # a task that carries TWO tags (its temp-dir name hashes both)
     add("g3", 1, 1, "cmd", extra="dirout")   # a directory as declared output: mkdir {o:out} && files inside
     # p's output declared with an absolute path (its temp path differs from its final path). Only g2: a
     # CONSUMER of an absolute path hashes that path into its temp-dir name, and recoveries run in a
@@ -820,6 +834,12 @@ def recovery_stage(prop, tier, depth_tag, oracles, crash=False):
                         nj["_snap"] = True
                         nj["snap_dir"] = os.path.join(ctx["scratch"], "snaps", nj["id"])
                     jobs.append(nj)
+                    if not clean and j["scen"]["graph"] == "g14b":
+                        # the re-run is another process: its range-over-map orders are not those of the killed run
+                        mj = copy.deepcopy(nj)
+                        mj["id"] += "-mo1"
+                        mj["force_all"] = 1
+                        jobs.append(mj)
         return jobs
     return stage
 
@@ -838,7 +858,7 @@ def plan_c03(tier, seed):
                  "args": {"n": "1", "size": str(size), "max": "2", "leftover_fifo": "1", "only_leftover": "1"}} for size in ((1,) if tier == "quick" else (1, 65537))]
     stages = [stage1, recovery_stage("C03", tier, "s", o2, crash=True), recovery_stage("C03", tier, "t", o2, crash=False), stage_fifo]
     return {"level": "fault_enumeration", "stages": stages,
-            "rule": "every DISTINCT disk state after every FS mutation of every explored schedule (crash points) of the crash scenarios; from each: R1 re-run as is (must refuse with exit != 0 when a temp dir / FIFO is left, else converge) and R2 remove leftovers + re-run (must complete with exactly the reference files and contents, no re-execution and no modification of tasks finalized before the crash, nothing left); R2 runs are themselves explored with crash points and recovered from once more (crash during recovery, depth 2); every recovery run explored over all its schedules (DPOR closed); + a named pipe left at <path>.fifo by a killed streaming run: the re-run stops",
+            "rule": "every DISTINCT disk state after every FS mutation of every explored schedule (crash points) of the crash scenarios; from each: R1 re-run as is (must refuse with exit != 0 when a temp dir / FIFO is left, else converge; for the two-tag scenario also with the other range-over-map order forced everywhere, as a new process may have) and R2 remove leftovers + re-run (must complete with exactly the reference files and contents, no re-execution and no modification of tasks finalized before the crash, nothing left); R2 runs are themselves explored with crash points and recovered from once more (crash during recovery, depth 2); every recovery run explored over all its schedules (DPOR closed); + a named pipe left at <path>.fifo by a killed streaming run: the re-run stops",
             "assumptions": BASE_ASSUMPTIONS + ["after a kill only the disk survives, so recovery is a function of the disk digest (paths, types, content hashes; audit files classified empty/partial/complete)", "kill = process kill, no power loss"],
             "distinct_nontrivial_fn": lambda rs: sum((r.get("distinct_crash_states") or 0) for r in rs)}
 
@@ -857,10 +877,16 @@ def plan_c02(tier, seed):
         combos = [("g2", 2, 2, "cmd"), ("g3", 1, 1, "cmd"), ("g3", 2, 1, "func"), ("g7", 1, 2, "cmd"), ("g8", 1, 1, "cmd"), ("g6b", 2, 1, "func"), ("g3", 1, 1, "cmd", "absout"), ("g2", 1, 1, "cmd", "subdir"), ("g7b", 1, 2, "cmd"), ("g8d", 1, 1, "cmd"), ("g3", 1, 1, "cmd", "setout-only"), ("g3", 1, 1, "cmd", "dirout")]
         if tier != "quick":
             combos += [("g3", 2, 2, "cmd"), ("g6", 1, 2, "cmd"), ("g7", 2, 2, "func"), ("g4", 1, 2, "cmd"), ("g8", 2, 2, "func")]
+        # multi-core tasks: a skipped task takes no slot (or gives back all it took)
+        combos += [("g2", 2, 2, "cmd", None, [2])] + ([] if tier == "quick" else [("g3", 2, 2, "func", None, [2, 1])])
         for combo in combos:
             g, i, m, kind = combo[:4]
-            ex = {"extra": combo[4]} if len(combo) > 4 else {}
-            jobs.append(wf("C02", g, i, 1, m, kind, mode="single", oracles=["clean"], tier=tier, events_dep=False, id=f"C02-list-{g}-i{i}-m{m}-{kind}" + (f"-{combo[4]}" if len(combo) > 4 else ""), _list=True, args={"list_outputs": "1"}, **ex))
+            ex = {"extra": combo[4]} if len(combo) > 4 and combo[4] else {}
+            sfx = f"-{combo[4]}" if len(combo) > 4 and combo[4] else ""
+            if len(combo) > 5:
+                ex["cores"] = combo[5]
+                sfx += "-c" + "".join(map(str, combo[5]))
+            jobs.append(wf("C02", g, i, 1, m, kind, mode="single", oracles=["clean"], tier=tier, events_dep=False, id=f"C02-list-{g}-i{i}-m{m}-{kind}" + sfx, _list=True, args={"list_outputs": "1"}, **ex))
         return jobs
     def stage2(ctx, prev):
         jobs = []
